@@ -1,51 +1,37 @@
 ------------------------------ MODULE MC_Annot ------------------------------
-(* C08: the erasure universe over SyltGen's programs, and validation of the recorded compile results. *)
-EXTENDS SyltGen, SyltAnnot, Json, IOUtils
+(* C08: emission of SyltGen's pairwise-nesting universe with the site counts of SyltAnnot.  The recorded compile
+   results are validated by MC_AnnotVal; the annotation-type families are emitted by MC_AnnotFam. *)
+EXTENDS SyltGen, SyltAnnot, Json, IOUtils, Randomization
 
 VARIABLES k, pc
 vars == <<k, pc>>
 
-Mode == IOEnv.MODE      \* "emit": print one record per program;  "validate": check recorded results
-
-\* ---- emit: the programs (distinct expressions; one harness per expression is enough for a compile-only property,
-\*      but every harness shape is used across the universe)
+\* ---- the programs (distinct expressions; one harness per expression is enough for a compile-only property,
+\*      but every harness shape is used across the universe).
+\* A state is a KEY - (outer template, hole, inner template, harness) or (template, harness) -, a small tuple; the
+\* expressions of a key (all default fillings of the other holes) are built and printed in the action, by TLC's workers.
 HarnessFor(o, i) == HarnessNames(ResultType(o), UsesLocals(o) \/ UsesLocals(i))
-Cases ==
-  UNION { UNION { {[o |-> p[1], pos |-> p[2], i |-> p[3], h |-> hn, e |-> e] : hn \in HarnessFor(p[1], p[3])}
-                  : e \in Nest(p[1], p[2], p[3]) } : p \in Pairs }
-  \cup UNION { UNION { {[o |-> n, pos |-> 0, i |-> "-", h |-> hn, e |-> e] : hn \in HarnessFor(n, n)}
-                  : e \in Instances(n, 100, 0) } : n \in TemplateNames }
+Keys ==
+  UNION { {<<"pair", p[1], p[2], p[3], hn>> : hn \in HarnessFor(p[1], p[3])} : p \in Pairs }
+  \cup UNION { {<<"single", n, 0, "-", hn>> : hn \in HarnessFor(n, n)} : n \in TemplateNames }
+Exprs(key) == IF key[1] = "pair" THEN Nest(key[2], key[3], key[4]) ELSE Instances(key[2], 100, 0)
 
 NPrelude == NumSites(Prelude)
 
-Rec == IF Mode = "validate" THEN ndJsonDeserialize(IOEnv.TRACE) ELSE <<>>
+\* quick tier: SAMPLE > 0 emits the programs of a random subset of that many keys (TLC's -seed makes it reproducible)
+Sample == IF "SAMPLE" \in DOMAIN IOEnv THEN atoi(IOEnv.SAMPLE) ELSE 0
+EmitKeys == IF Sample > 0 /\ Sample < Cardinality(Keys) THEN RandomSubset(Sample, Keys) ELSE Keys
 
-Init == /\ pc = "start"
-        /\ IF Mode = "emit" THEN k \in Cases ELSE k \in 1..Len(Rec)
+Init == pc = "start" /\ k \in EmitKeys
 
-Emit == /\ Mode = "emit" /\ pc = "start" /\ pc' = "done" /\ k' = k
-        /\ LET tops == Harness(k.h, k.e, ResultType(k.o)) IN
-           PrintT(<<"REPLAY", ToJson([id |-> [o |-> k.o, pos |-> k.pos, i |-> k.i, h |-> k.h],
-                                      tops |-> tops, nsites |-> NumSites(tops), nprelude |-> NPrelude])>>)
+Emit == /\ pc = "start" /\ pc' = "done" /\ k' = k
+        /\ \A e \in Exprs(k) :
+             Bind(Harness(k[5], e, ResultType(k[2])), LAMBDA tops :
+               PrintT(<<"REPLAY", ToJson([id |-> [o |-> k[2], pos |-> k[3], i |-> k[4], h |-> k[5]],
+                                          tops |-> tops, nsites |-> NumSites(tops), nprelude |-> NPrelude])>>))
 
-\* ---- validate: record = [nsites, nprelude, results: <<[mask, class, digest]>>]
-Results == Rec[k].results
-MaskSet == {Results[j].mask : j \in 1..Len(Results)}
-Complete == Masks(Rec[k].nsites, Rec[k].nprelude) \subseteq MaskSet
-AllAccepted == \A j \in 1..Len(Results) : Results[j].class = "ok"
-SameBytes == \A j \in 1..Len(Results) : Results[j].digest = Results[1].digest
-
-Validate == /\ Mode = "validate" /\ pc = "start" /\ pc' = "done" /\ k' = k
-            /\ Assert(Complete, <<"record does not cover the spec's mask universe", k>>)
-            /\ IF AllAccepted /\ SameBytes THEN TRUE
-               ELSE PrintT(<<"REJECT", ToJson([rec |-> k,
-                     why |-> IF ~AllAccepted THEN "variant-rejected" ELSE "bytes-differ",
-                     bad |-> {j \in 1..Len(Results) : Results[j].class # "ok" \/ Results[j].digest # Results[1].digest}])>>)
-
-Next == Emit \/ Validate
+Next == Emit
 Spec == Init /\ [][Next]_vars
 
-\* spec-level sanity: the mask universe is well-formed
-MasksOk == Mode = "validate" =>
-    \A m \in Masks(Rec[k].nsites, Rec[k].nprelude) : Len(m) = Rec[k].nsites
+TypeOk == pc \in {"start", "done"}
 =============================================================================
